@@ -223,3 +223,106 @@ type addrConn struct {
 func (a *addrConn) RemoteAddr() net.Addr { return a.remote }
 
 var _ = rand.Int
+
+// sinkConn records what is written to it (no peer to wait for: writers never block, so many Encrypt calls overlap).
+type sinkConn struct {
+	mu     sync.Mutex
+	out    []byte
+	remote net.Addr
+}
+
+func (s *sinkConn) Read(b []byte) (int, error) { select {} }
+func (s *sinkConn) Write(b []byte) (int, error) {
+	s.mu.Lock()
+	s.out = append(s.out, b...)
+	s.mu.Unlock()
+	return len(b), nil
+}
+func (s *sinkConn) Close() error                       { return nil }
+func (s *sinkConn) LocalAddr() net.Addr                { return fakeAddr("127.0.0.1:1") }
+func (s *sinkConn) RemoteAddr() net.Addr               { return s.remote }
+func (s *sinkConn) SetDeadline(t time.Time) error      { return nil }
+func (s *sinkConn) SetReadDeadline(t time.Time) error  { return nil }
+func (s *sinkConn) SetWriteDeadline(t time.Time) error { return nil }
+
+// sealBurst: several verified connections with DIFFERENT session keys, several writers each, hundreds of small writes
+// with nothing to wait for — the sealing of frames of different connections overlaps all the time. Afterwards every
+// connection's byte stream must decrypt, frame by frame and in order, under ITS key, into whole tagged payloads.
+func sealBurst(c *Ctx, who string) {
+	for round := 0; round < c.Pick(6, 80) && c.NumViolations() < 3; round++ {
+		id := c.CaseID("burst", round)
+		if c.Skip(id) {
+			continue
+		}
+		r := c.CaseRng("burst", round)
+		nconn, nw, nwr := 3+r.Intn(3), 4, 150+r.Intn(200)
+		ctx := hap.NewContextForSecuredDevice(nil)
+		type side struct {
+			sink *sinkConn
+			conn *hap.Connection
+			peer *refSession
+		}
+		var sides []*side
+		for k := 0; k < nconn; k++ {
+			sk := &sinkConn{remote: fakeAddr(fmt.Sprintf("10.9.1.%d:%d", k+1, 6000+k))}
+			s := &side{sink: sk, conn: hap.NewConnection(sk, ctx)}
+			var shared [32]byte
+			copy(shared[:], randBytes(r, 32))
+			sec, _ := crypto.NewSecureSessionFromSharedKey(shared)
+			ctx.GetSessionForConnection(sk).SetCryptographer(sec)
+			responseWritten(ctx, sk)
+			s.peer = newRefControllerSession(shared[:])
+			sides = append(sides, s)
+		}
+		payload := func(k, t, w int) []byte {
+			n := 1 + (k*7+t*13+w*5)%90
+			p := make([]byte, 4+n)
+			p[0], p[1], p[2], p[3] = byte(k), byte(t), byte(w), byte(w>>8)
+			for i := 0; i < n; i++ {
+				p[4+i] = byte(k + t + w + i)
+			}
+			return p
+		}
+		var wg sync.WaitGroup
+		start := make(chan struct{})
+		for k, s := range sides {
+			for t := 0; t < nw; t++ {
+				wg.Add(1)
+				go func(k, t int, s *side) {
+					defer wg.Done()
+					<-start
+					for w := 0; w < nwr; w++ {
+						s.conn.Write(payload(k, t, w))
+					}
+				}(k, t, s)
+			}
+		}
+		close(start)
+		wg.Wait()
+		in := map[string]interface{}{"connections": nconn, "writers_per_connection": nw, "writes_per_writer": nwr}
+		for k, s := range sides {
+			pt, used, ok := s.peer.DecryptFrames(s.sink.out)
+			if !ok || used != len(s.sink.out) {
+				c.Violate(who+" burst: a frame written on one connection while other connections were sealing does not authenticate under this connection's key and counter", id, in,
+					"every frame authenticates, in order", fmt.Sprintf("connection %d: stops after %d of %d bytes on the wire", k, used, len(s.sink.out)))
+				continue
+			}
+			next := make([]int, nw)
+			for len(pt) > 0 {
+				if len(pt) < 4 || int(pt[0]) != k || int(pt[1]) >= nw {
+					c.Violate(who+" burst: a payload did not reach the peer intact and contiguous", id, in, "tagged payload", fmt.Sprintf("connection %d: % x", k, pt[:min(8, len(pt))]))
+					break
+				}
+				t, w := int(pt[1]), int(pt[2])|int(pt[3])<<8
+				want := payload(k, t, w)
+				if w != next[t] || len(pt) < len(want) || !bytes.Equal(pt[:len(want)], want) {
+					c.Violate(who+" burst: a payload did not reach the peer intact and contiguous", id, in, fmt.Sprintf("payload %d of writer %d", next[t], t), fmt.Sprintf("connection %d: t=%d w=%d", k, t, w))
+					break
+				}
+				next[t]++
+				pt = pt[len(want):]
+			}
+		}
+		c.Count(fmt.Sprint(id, nconn, nwr), true, "stream:burst", fmt.Sprintf("burst:conns=%d", nconn))
+	}
+}
